@@ -6,6 +6,9 @@ ROOT = os.path.dirname(os.path.dirname(os.path.abspath(__file__)))
 
 # id -> (level, technique, level text, level note, design ref)
 CHECKS = {
+    "C10": ("exploration", "runtime monitoring: panic/process-death monitor (child per batch, case replayed alone to confirm), nesting-depth monitor (recording assembler), allocation monitor (runtime.MemStats.TotalAlloc delta against a budget-relative bound), over random, mutated and structure-aware hostile inputs to the five decoders under many configurations and targets, to the selector compiler and the walks of what compiles, and to ParsePath; thorough tier also runs under the race build for checkptr",
+            "Held on the executions observed: no panic, no process death, depth and allocation within the configured bounds. Termination is a per-batch watchdog (inconclusive when it fires), so 'terminates' is bounded progress only.",
+            "Trusted: allocation constants calibrated on the unchanged tree (>=4x headroom); the bound is relative to the configured budget.", "DESIGN.md §2 C10"),
     "C04": ("exploration", "runtime monitoring: differential oracle — the encoder's output is read by an independent DAG-JSON reader (encoding/json token stream + reserved-form rules) and by the library decoder, both compared with the abstract value; encodings compared across insertion orders and implementations; failed decodes interleaved",
             "Held on the executions observed apart from two known findings with one cause in the pinned dependency refmt (integral floats are written without '.' and so change kind or stop decoding). Sampling with boundary bias.",
             "Trusted: encoding/json as tokenizer, go-cid for the CID string form, internal/ref/json.", "DESIGN.md §2 C04"),
